@@ -11,6 +11,7 @@ import (
 	"verifharness/core"
 	"verifharness/gen"
 	"verifharness/obs"
+	"verifharness/ref"
 )
 
 // C07 — the parallel parser is indistinguishable from the serial parser.
@@ -44,7 +45,20 @@ func c07SmallText(r *core.Rand, k int) (string, string) {
 	}
 	o := gen.Opts{MaxRecs: 4, MinRecs: 1, MaxEntries: 2, Unicode: r.Chance(1, 2), Hostile: true, OpenRanges: 1, Short: true, TrailingBlank: r.Chance(1, 2), Tags: r.Intn(2)}
 	d := gen.Document(r, o)
-	switch r.Intn(4) {
+	switch r.Intn(5) {
+	case 4:
+		// an invisible character (byte order mark, zero-width space) in front of some line: "the first line of the file" is
+		// a different line for a worker than for the whole text
+		ls := ref.SplitLines(d.Text)
+		if len(ls) > 0 {
+			k := r.Intn(len(ls))
+			ls[k].Text = r.Pick("\ufeff", "\ufeff", "\u200b") + ls[k].Text
+			var sb strings.Builder
+			for _, l := range ls {
+				sb.WriteString(l.Text + l.Ending)
+			}
+			return sb.String(), "invisible-prefix"
+		}
 	case 0:
 		if m, ok := gen.Mutate(r, d); ok {
 			return m.Text, "mutant"
